@@ -507,6 +507,11 @@ func drive(t *testing.T, forceBin bool) {
 				rec.Count("accepted_although_focused_filter_invalid:"+parts[2], 1)
 			}
 		}
+		for _, f := range cfg.FocusedValues {
+			parts := strings.Split(f, ":")
+			rec.Count("focused_values_check:"+parts[1], 1)
+			rec.Count("focused_values_check:value-"+parts[2], 1)
+		}
 		if cfg.SinglePerturbed {
 			rec.Count("single_perturbation_cases", 1)
 			if out.accepted {
